@@ -2,9 +2,14 @@
 Model of the actor protocol of a race (esrally/driver/driver.py): Worker (receiveMsg_StartWorker / Drive /
 CompleteCurrentTask / WakeupMessage, drive, at_joinpoint, current_tasks_and_advance), Driver
 (joinpoint_reached, move_to_next_task, may_complete_current_task), the executor thread at the granularity
-"task finishes / future done" with the `complete` flag logic of AsyncExecutor (completed = complete.is_set()
+"task returns / future done" with the `complete` flag logic of AsyncExecutor (completed = complete.is_set()
 or runner.completed; the finally block), FIFO channels per (sender, receiver) pair, wake-ups that fire at any
 time after they were armed.  Import-free.
+
+A worker's slice of the allocation matrix is kept grouped: `elems w e` = the non-empty task columns of
+schedule element `e` for worker `w` (columns where all its clients have `None` are skipped by `drive`),
+`joins j` = the join point with id `j`.  The position of a worker is "parked at join j" or "in column c of
+element e" (the line-protocol driver converts the flat `current_task_index` of the code to this form).
 
 The model follows the tree *after* the three `fix:` commits for C01 (skip branch keeps driving, completion
 honoured while start_driving, `any` completion only by workers that ran such a task).
@@ -19,18 +24,24 @@ structure TaskA where
   acp : Bool         -- any_completes_parent
 deriving Repr, DecidableEq
 
-inductive Col
-  | join (id : Nat) (completing : List Nat) (anyC : List Nat)   -- client ids executing the completing / any-completing tasks
-  | tasks (ts : List TaskA)                                      -- non-None allocations of this worker's clients (non-empty)
-  | empty                                                        -- every client of this worker has `None` here
+structure JoinInfo where
+  completing : List Nat      -- clients executing the named completing task of the preceding element
+  anyC : List Nat            -- clients executing tasks any of which completes the preceding element
 deriving Repr, DecidableEq
 
 structure Cfg where
-  W : Nat                       -- number of workers
-  S : Nat                       -- Driver.number_of_steps
-  cols : Nat → List Col         -- worker → its ClientAllocations by task index
-  workerOf : Nat → Nat          -- Driver.clients_per_worker
-  clientsOf : Nat → List Nat    -- worker → its client ids
+  W : Nat                                  -- number of workers
+  S : Nat                                  -- Driver.number_of_steps = number of schedule elements
+  elems : Nat → Nat → List (List TaskA)    -- worker → element → its non-empty task columns, in order
+  joins : Nat → JoinInfo                   -- join point id → its completed-by information
+  workerOf : Nat → Nat                     -- Driver.clients_per_worker
+  clientsOf : Nat → List Nat               -- worker → its client ids
+
+inductive Pos
+  | unstarted                       -- StartWorker not yet received
+  | atJoin (j : Nat)                -- parked at join point j (JoinPointReached sent)
+  | inCol (e c : Nat)               -- executing (or having executed) column c of element e
+deriving Repr, DecidableEq
 
 inductive Exec
   | none                                   -- executor_future is None
@@ -39,8 +50,7 @@ inductive Exec
 deriving Repr, DecidableEq
 
 structure WState where
-  cur : Nat := 0               -- current_task_index
-  nxt : Nat := 0               -- next_task_index
+  pos : Pos := .unstarted
   startDriving : Bool := false
   complete : Bool := false
   exec : Exec := .none
@@ -50,14 +60,14 @@ deriving Repr, DecidableEq
 inductive MsgDW | startWorker | drive | cct
 deriving Repr, DecidableEq
 
-inductive MsgWD | jpr (col : Nat)           -- JoinPointReached carrying the join point at column `col`
+inductive MsgWD | jpr (j : Nat)             -- JoinPointReached for join point j
 deriving Repr, DecidableEq
 
 inductive MsgDR | taskFinished | benchComplete
 deriving Repr, DecidableEq
 
 structure DState where
-  stepP1 : Nat := 0            -- current_step + 1
+  stepP1 : Nat := 0            -- current_step + 1 = number of times the barrier has opened
   completed : Nat := 0         -- currently_completed
   reported : List Nat := []    -- keys of workers_completed_current_step
   cctSent : Bool := false
@@ -68,8 +78,8 @@ structure State where
   d : DState
   d2w : Nat → List MsgDW
   w2d : Nat → List MsgWD
-  d2r : List MsgDR              -- everything race control has been sent, oldest first
-  starts : List (Nat × Nat)     -- history: (client, tid) of every executor start
+  d2r : List MsgDR                    -- everything race control has been sent, oldest first
+  entered : List (Nat × Nat × Nat)    -- history: (worker, element, column) of every executor start
 
 inductive Event
   | deliverDW (w : Nat)
@@ -83,73 +93,67 @@ def upd {α : Type} (f : Nat → α) (i : Nat) (v : α) : Nat → α := fun j =>
 
 def init (cfg : Cfg) : State :=
   { ws := fun _ => {}, d := {}, d2w := fun w => if w < cfg.W then [.startWorker] else [], w2d := fun _ => [],
-    d2r := [], starts := [] }
+    d2r := [], entered := [] }
 
-/-- `current_tasks_and_advance` repeated while the column is empty: first non-empty column at index ≥ `i` -/
-def advance (cols : List Col) : Nat → Nat → Option (Nat × Col)
-  | _, 0 => none
-  | i, fuel + 1 =>
-    match cols[i]? with
-    | none => none                                  -- IndexError in the real code
-    | some .empty => advance cols (i + 1) fuel
-    | some c => some (i, c)
+/-- reaching join point `j`: the join-point branch of `Worker.drive` -/
+def toJoin (w j : Nat) (s : State) : State :=
+  let ws := s.ws w
+  { s with
+    ws := upd s.ws w { ws with pos := .atJoin j, complete := false, exec := .none },
+    w2d := upd s.w2d w (s.w2d w ++ [.jpr j]) }
 
-def isJoinAt (cols : List Col) (i : Nat) : Bool :=
-  match cols[i]? with
-  | some (.join ..) => true
-  | some .empty => true        -- `all(...)` over an empty list: never rested upon (drive skips empty columns)
-  | _ => false
-
-/-- `Worker.drive` -/
-def drive (cfg : Cfg) (w : Nat) : Nat → State → Option State
-  | 0, _ => none
-  | fuel + 1, s =>
-    let ws := s.ws w
-    match advance (cfg.cols w) ws.nxt (cfg.cols w).length with
-    | none => none
-    | some (i, .join _ _ _) =>
-      some { s with
-        ws := upd s.ws w { ws with cur := i, nxt := i + 1, complete := false, exec := .none },
-        w2d := upd s.w2d w (s.w2d w ++ [.jpr i]) }
-    | some (i, .tasks ts) =>
-      if ws.complete then
-        -- asked to complete everything up to the next join point: skip and keep driving (repaired code)
-        drive cfg w fuel { s with ws := upd s.ws w { ws with cur := i, nxt := i + 1 } }
-      else
-        some { s with
-          ws := upd s.ws w { ws with cur := i, nxt := i + 1, exec := .running (ts.map fun t => (t, false)), wake := ws.wake + 1 },
-          starts := s.starts ++ ts.map fun t => (t.client, t.tid) }
-    | some (_, .empty) => none
+/-- `Worker.drive` from the current position: the next non-empty column of the current element, or — if there is
+    none, or the worker has been asked to complete everything up to the next join point — the next join point -/
+def driveNext (cfg : Cfg) (w : Nat) (s : State) : Option State :=
+  let ws := s.ws w
+  let go (e c : Nat) : Option State :=
+    if e ≥ cfg.S then none else        -- nothing is allocated after the last join point (IndexError in the code)
+    match (cfg.elems w e)[c]? with
+    | some ts =>
+      if ws.complete then some (toJoin w (e + 1) s)
+      else some { s with
+        ws := upd s.ws w { ws with pos := .inCol e c, exec := .running (ts.map fun t => (t, false)), wake := ws.wake + 1 },
+        entered := s.entered ++ [(w, e, c)] }
+    | none => some (toJoin w (e + 1) s)
+  match ws.pos with
+  | .unstarted => none
+  | .atJoin j => go j 0
+  | .inCol e c => go e (c + 1)
 
 def sendAll (W : Nat) (d2w : Nat → List MsgDW) (m : MsgDW) : Nat → List MsgDW :=
   fun w => if w < W then d2w w ++ [m] else d2w w
 
 /-- `Driver.may_complete_current_task` for the join point reported by worker `w` -/
-def mayComplete (cfg : Cfg) (w : Nat) (completing anyC : List Nat) (s : State) : State :=
-  if (anyC.any fun c => (cfg.clientsOf w).contains c) && !s.d.cctSent then
+def mayComplete (cfg : Cfg) (w : Nat) (ji : JoinInfo) (s : State) : State :=
+  if (ji.anyC.any fun c => (cfg.clientsOf w).contains c) && !s.d.cctSent then
     { s with d := { s.d with cctSent := true }, d2w := sendAll cfg.W s.d2w .cct }
-  else if !completing.isEmpty && !s.d.cctSent then
-    if completing.all fun c => s.d.reported.contains (cfg.workerOf c) then
+  else if !ji.completing.isEmpty && !s.d.cctSent then
+    if ji.completing.all fun c => s.d.reported.contains (cfg.workerOf c) then
       { s with d := { s.d with cctSent := true }, d2w := sendAll cfg.W s.d2w .cct }
     else s
   else s
 
 /-- `Driver.joinpoint_reached` -/
-def joinpointReached (cfg : Cfg) (w : Nat) (completing anyC : List Nat) (s : State) : State :=
-  let d1 := { s.d with completed := s.d.completed + 1, reported := w :: s.d.reported }
+def joinpointReached (cfg : Cfg) (w : Nat) (ji : JoinInfo) (s : State) : State :=
+  let d1 : DState := { s.d with completed := s.d.completed + 1, reported := w :: s.d.reported }
   if d1.completed = cfg.W then
-    let d2 : DState := { stepP1 := d1.stepP1 + 1, completed := 0, reported := [], cctSent := false }
+    let d2 : DState := { stepP1 := s.d.stepP1 + 1, completed := 0, reported := [], cctSent := false }
     if d2.stepP1 = cfg.S + 1 then
       { s with d := d2, d2r := s.d2r ++ [.benchComplete] }
     else
       { s with d := d2, d2r := s.d2r ++ [.taskFinished], d2w := sendAll cfg.W s.d2w .drive }
   else
-    mayComplete cfg w completing anyC { s with d := d1 }
+    mayComplete cfg w ji { s with d := d1 }
 
 def allDone (ts : List (TaskA × Bool)) : Bool := ts.all (·.2)
 
 def setDone (ts : List (TaskA × Bool)) (i : Nat) : List (TaskA × Bool) :=
   ts.zipIdx.map fun (p, j) => if j = i then (p.1, true) else p
+
+def parked (ws : WState) : Bool :=
+  match ws.pos with
+  | .inCol .. => false
+  | _ => true
 
 /-- one atomic step; `none` = the event is not enabled (or the real handler would raise) -/
 def step (cfg : Cfg) (s : State) : Event → Option State
@@ -160,20 +164,23 @@ def step (cfg : Cfg) (s : State) : Event → Option State
       let s1 := { s with d2w := upd s.d2w w rest }
       let ws := s.ws w
       match m with
-      | .startWorker => drive cfg w ((cfg.cols w).length + 1) { s1 with ws := upd s.ws w { ws with cur := 0 } }
+      | .startWorker =>
+        match ws.pos with
+        | .unstarted => some (toJoin w 0 s1)
+        | _ => none
       | .drive => some { s1 with ws := upd s.ws w { ws with startDriving := true, wake := ws.wake + 1 } }
       | .cct =>
-        if isJoinAt (cfg.cols w) ws.cur && !ws.startDriving then some s1
+        if parked ws && !ws.startDriving then some s1
         else some { s1 with ws := upd s.ws w { ws with complete := true } }
   | .wakeW w =>
     let ws := s.ws w
     if ws.wake = 0 then none else
     let ws1 := { ws with wake := ws.wake - 1 }
     if ws.startDriving then
-      drive cfg w ((cfg.cols w).length + 1) { s with ws := upd s.ws w { ws1 with startDriving := false } }
+      driveNext cfg w { s with ws := upd s.ws w { ws1 with startDriving := false } }
     else
       match ws.exec with
-      | .finished => drive cfg w ((cfg.cols w).length + 1) { s with ws := upd s.ws w { ws1 with exec := .none } }
+      | .finished => driveNext cfg w { s with ws := upd s.ws w { ws1 with exec := .none } }
       | _ => some { s with ws := upd s.ws w { ws1 with wake := ws1.wake + 1 } }
   | .taskDone w i =>
     let ws := s.ws w
@@ -194,10 +201,7 @@ def step (cfg : Cfg) (s : State) : Event → Option State
   | .deliverWD w =>
     match s.w2d w with
     | [] => none
-    | .jpr col :: rest =>
-      match (cfg.cols w)[col]? with
-      | some (.join _ completing anyC) => some (joinpointReached cfg w completing anyC { s with w2d := upd s.w2d w rest })
-      | _ => none
+    | .jpr j :: rest => some (joinpointReached cfg w (cfg.joins j) { s with w2d := upd s.w2d w rest })
 
 /-- states reachable from `init` -/
 inductive Reach (cfg : Cfg) : State → Prop
